@@ -129,6 +129,13 @@ def prepare_lean(prop_modules: list[str], bridge: bool = True) -> LeanStatus:
         rc, out = sh([sys.executable, str(VERIF / "tools" / "translate.py")], env={**os.environ, "VERIF_REPO": str(REPO)})
         st.translate_ok = rc == 0
         st.translate_msg = out.strip().split("\n")[-1] if out.strip() else ""
+        if any(m.endswith(".C19") for m in prop_modules):
+            # C19's effect table: re-extracted from the source on every run
+            rc2, out2 = sh([sys.executable, str(VERIF / "tools" / "effects.py"), "--pkg", str(REPO / "groupby_lib"), "--lean",
+                            str(LEAN / "GroupbyVerif" / "Generated" / "Effects.lean")], cwd=VERIF / "tools")
+            if rc2 != 0:
+                st.translate_ok = False
+                st.translate_msg = "effects.py: " + (out2.strip().split("\n")[-1] if out2.strip() else "failed")
         # driver first (it does not depend on the proofs)
         rc, out = sh(["lake", "build", "gbdriver"], cwd=LEAN, timeout=1800)
         st.driver_ok = rc == 0 and DRIVER.exists()
@@ -320,6 +327,7 @@ class Run:
                 "failed_obligations": failed_obl[:40],
                 "correspondence_disagreements": self.disagreements[:10],
                 "model_vs_spec_failures": self.echo_failures[:10],
+                "static_findings": self.extra.get("static_findings"),
                 "note": "no concrete input violating the property was found by the search; the property is no longer shown to hold",
                 "build_log_tail": (self.lean.build_log[-4000:] if self.lean else ""),
             })
